@@ -107,10 +107,26 @@ def sliceKeyAux : List SliceInfo → List Nat → Nat → List (Ix × Nat)
 def sliceKey (sl : List SliceInfo) (i : Nat) : List (Ix × Nat) :=
   sliceKeyAux sl (getSliceStrides sl) i
 
+/-! ### certificate checker for a real table `i ↦ slice_key(i)` -/
+
+def validKeyB : List SliceInfo → List (Ix × Nat) → Bool
+  | [], [] => true
+  | s :: sl, kv :: k => kv.1 == s.ind && s.slicedRange.contains kv.2 && validKeyB sl k
+  | _, _ => false
+
+def nodupB : List (List (Ix × Nat)) → Bool
+  | [] => true
+  | a :: t => !t.contains a && nodupB t
+
 /-- product of the `size` fields -/
 def prodSizes : List SliceInfo → Nat
   | [] => 1
   | s :: t => s.size * prodSizes t
+
+/-- accepts a table of keys iff it has `nslices` rows, every row is a valid key and no row
+    repeats (sound for "the table is a bijection onto the valid keys": `C06.keysCert_sound`) -/
+def keysCert (sl : List SliceInfo) (ks : List (List (Ix × Nat))) : Bool :=
+  ks.length == prodSizes sl && ks.all (validKeyB sl) && nodupB ks
 
 /-- `nchunks` (core.py:392): product of the sizes of the sliced *output* indices -/
 def nchunks (sl : List SliceInfo) : Nat := prodSizes (sl.filter (fun s => !s.inner))
